@@ -139,6 +139,39 @@ theorem C16_adaptive_convex_bounds (wv : List (Int × Int)) (lo hi : Int)
 
 example : ∀ p ∈ [((1 : Int), (10 : Int)), (2, 30), (1, 20)], 0 ≤ p.1 ∧ (10 : Int) ≤ p.2 ∧ p.2 ≤ 30 := by decide
 
+/-! ### view geometry -/
+
+/-- the per-pixel loop of `threshold_impl` / `adaptive_impl` (`for y, for x: dst(x, y) = op(src(x, y))`) on views of ARBITRARY memory
+    geometry: pixel (x, y) of the source lives in cell `addrS (x, y)` of `memS`, pixel (x, y) of the destination in cell `addrD (x, y)`
+    of `memD` (whole image, sub-view of a larger image, padded rows, flipped, stepped: any `addrS`, any `addrD` that is injective on the
+    view).  Result: every destination pixel holds the per-pixel value of the source pixel with the SAME logical coordinates, whatever the
+    two layouts are, and no cell outside the destination view changes (frame).  The planes of the executable model are exactly this
+    coordinate-indexed content; the real code is tied to it by running every op under several layouts (op word `@<src><dst>`). -/
+theorem C16_view_geometry_irrelevant (addrS addrD : Nat × Nat → Nat) (w h : Nat) (f : Int → Int) (memS memD : Nat → Int)
+    (inj : ∀ p q, p ∈ gridPts w h → q ∈ gridPts w h → addrD p = addrD q → p = q) :
+    (∀ x y, x < w → y < h →
+        writeCells addrD (fun p => f (memS (addrS p))) (gridPts w h) memD (addrD (x, y)) = f (memS (addrS (x, y))))
+    ∧ (∀ a, (∀ x y, x < w → y < h → addrD (x, y) ≠ a) →
+        writeCells addrD (fun p => f (memS (addrS p))) (gridPts w h) memD a = memD a) := by
+  constructor
+  · intro x y hx hy
+    exact writeCells_value addrD _ (gridPts w h) memD inj (x, y) ((mem_gridPts w h (x, y)).mpr ⟨hx, hy⟩)
+  · intro a ha
+    exact writeCells_frame addrD _ (gridPts w h) memD a (fun p hp => by
+      have := (mem_gridPts w h p).mp hp
+      exact ha p.1 p.2 this.1 this.2)
+
+/-- a 3×2 ROI at (2,1) of a 9-wide canvas: its addressing is injective (hypothesis of `C16_view_geometry_irrelevant`), and the contiguous
+    walk `cell = base + y·w + x` the seeded fast path used would address different cells from row 1 on -/
+example : (∀ p q, p ∈ gridPts 3 2 → q ∈ gridPts 3 2 → (fun (p : Nat × Nat) => (p.2 + 1) * 9 + p.1 + 2) p = (fun (p : Nat × Nat) => (p.2 + 1) * 9 + p.1 + 2) q → p = q)
+    ∧ (1 + 1) * 9 + 0 + 2 ≠ (0 + 1) * 9 + 2 + (1 * 3 + 0) := by
+  refine ⟨?_, by decide⟩
+  intro p q hp hq
+  have h1 := (mem_gridPts 3 2 p).mp hp
+  have h2 := (mem_gridPts 3 2 q).mp hq
+  intro e; simp only at e
+  apply Prod.ext <;> omega
+
 /-! ### Otsu -/
 
 /-- the histogram index computed from the scanned min/max lies in [0,255] (generated expression) -/
